@@ -27,6 +27,7 @@ class World:
         self.after_run = None
         self.live = {}              # client name -> live process (Proc, repo, backend)
         self.live_renew = None      # hook: the adapter object of a live process starts its next command
+        self.live_shared = False    # one program serves every user through ONE Repository object (unlock() switches)
 
     def end_all_live(self):
         for name in sorted(self.live):
@@ -84,7 +85,8 @@ class World:
         """The command runs inside the client's long-lived process: same Repository object, same
         adapter object, same loop and threads as its previous commands."""
         profile = profile or self.profile()
-        ent = self.live.get(client.name)
+        skey = '*shared*' if self.live_shared else client.name
+        ent = self.live.get(skey)
         if ent is None:
             proc = world.Proc(self.env, opts)
             holder = {}
@@ -103,11 +105,11 @@ class World:
                     res.max_inflight = getattr(backend, 'max_inflight_slot', None)
             r = proc.run(first)
             if not proc.dead and holder.get('unlocked'):
-                self.live[client.name] = (proc, holder['repo'], holder['backend'])
+                self.live[skey] = [proc, holder['repo'], holder['backend'], client.name]
             elif not proc.dead:
                 proc.close()
             return r
-        proc, repo, backend = ent
+        proc, repo, backend, current = ent
         if hasattr(backend, 'new_command'):
             backend.new_command(profile)
         if self.live_renew is not None:
@@ -117,18 +119,27 @@ class World:
         async def nxt(res):
             res.repo, res.backend = repo, backend
             try:
+                if current != client.name:
+                    # the program switches to another user's credentials on the same object
+                    ent[3] = None
+                    await repo.unlock(password=client.password, key=client.key)
+                    ent[3] = client.name
                 return await action(repo)
             finally:
                 res.max_inflight = getattr(backend, 'max_inflight_slot', None)
         r = proc.run(nxt)
         if proc.dead:
-            del self.live[client.name]
+            del self.live[skey]
+        elif ent[3] is None:
+            # unlock itself failed: the program drops the object
+            self.end_live_key(skey)
         return r
 
-    def end_live(self, client):
-        ent = self.live.pop(client.name, None)
+    def end_live_key(self, skey):
+        ent = self.live.pop(skey, None)
         if ent is not None:
             ent[0].close()
+
 
     def digest(self):
         import hashlib
